@@ -610,7 +610,9 @@ impl ExecutableContent for SendParameters {
             return false;
         }
 
-        let target_guard = target.lock().unwrap();
+        // Work on a copy: the value stays locked otherwise, and an event name or type that is given by the
+        // same variable (eventexpr="v" targetexpr="v") would lock it a second time.
+        let target_guard = target.lock().unwrap().clone();
         if delay_ms > 0 && target_guard.to_string().eq(SCXML_TARGET_INTERNAL) {
             // Can't send via internal queue
             error!("Send: illegal delay for target {}", target_guard);
